@@ -17,7 +17,7 @@ func init() {
 		Level: "model_checking",
 		Rule: "all ordered pairs over a pool of values of every built-in data type (incl. nested containers, bear children of objects, typed descendants made with new, booleans, NaN) for the equality laws; " +
 			"all pairs and all triples inside each ordered family (int-like, float-like, str-like) for the order laws; every comparison is evaluated by the real interpreter; " +
-			"non-trivial = every law instance (pair or triple) checked; distinct = distinct (law, operands)",
+			"non-trivial = every law instance (pair or triple) checked; distinct = distinct (law, operands); round 8: The float family holds values closer than any tolerance, tiny magnitudes and results of arithmetic.",
 		Assumptions: []string{
 			"cross-family ordering, prototype objects and bear children of non-object values are outside the property's domain and not generated",
 			"NaN is exempt from reflexivity and from the order laws",
